@@ -39,13 +39,27 @@ ValidPlacement(f, p) ==
       [] f = "fileHeader" -> p \in {"header", "body"}
       [] f \in {"repoPattern", "linterPattern"} -> p = "on"
 
-VARIABLES form, spelling, placement, done
-vars == <<form, spelling, placement, done>>
-Init == form = "sameLine" /\ spelling = "fullId" /\ placement = "on" /\ done = FALSE
-Choose(f, s, p) == ~done /\ ValidPlacement(f, p) /\ (s \in ListSpellings => f = "sameLine") /\ form' = f /\ spelling' = s /\ placement' = p /\ done' = TRUE
-Next == \E f \in Forms, s \in Spellings, p \in Placements : Choose(f, s, p)
+\* A second directive stacked on the first one.  It always names ANOTHER rule, so by the requirement it changes
+\* nothing: the findings of the file with both directives are those of the file with the first directive alone
+\* (shifted by the inserted lines).  The second directive is judged like any other: Expected(after(d1), d2).
+\*   blockOther      `ignore-start <other>` ... `ignore-end` enclosing the first directive and its target line
+\*   lineOtherAbove  `ignore-next-line[<other>]` on the line above the first directive / its target line
+\*   fileOther       `ignore-file[<other>]` as the first line of the file
+Stacks == {"none", "blockOther", "lineOtherAbove", "fileOther"}
+StackedSpellings == {"fullId", "linterPrefix", "bare", "otherRule"}
+ValidStack(f, s, p, k) ==
+    k # "none" => /\ f \in {"sameLine", "nextLine", "fileHeader"}
+                  /\ s \in StackedSpellings
+                  /\ p \in {"on", "before", "header", "body"}
+
+VARIABLES form, spelling, placement, stack, done
+vars == <<form, spelling, placement, stack, done>>
+Init == form = "sameLine" /\ spelling = "fullId" /\ placement = "on" /\ stack = "none" /\ done = FALSE
+Choose(f, s, p, k) == /\ ~done /\ ValidPlacement(f, p) /\ (s \in ListSpellings => f = "sameLine") /\ ValidStack(f, s, p, k)
+                      /\ form' = f /\ spelling' = s /\ placement' = p /\ stack' = k /\ done' = TRUE
+Next == \E f \in Forms, s \in Spellings, p \in Placements, k \in Stacks : Choose(f, s, p, k)
 Spec == Init /\ [][Next]_vars
-Emit == done => PrintT(<<"CASE", ToJson([form |-> form, spelling |-> spelling, placement |-> placement])>>)
+Emit == done => PrintT(<<"CASE", ToJson([form |-> form, spelling |-> spelling, placement |-> placement, stack |-> stack])>>)
 
 \* ---- layer A ----------------------------------------------------------------------------------
 \* d.tlinter / d.tsub: the rule of the violation the directive was written for;
@@ -82,6 +96,39 @@ Survives(d, v) == ~(v.file = d.file /\ Names(d, v) /\ InScope(d, NewLine(d, v)))
 NewLineF(d, v) == IF v.file = d.file THEN NewLine(d, v) ELSE v.line
 Expected(base, d) == {[file |-> v.file, linter |-> v.linter, sub |-> v.sub, line |-> NewLineF(d, v), n |-> v.n, cross |-> v.cross, pinned |-> v.pinned] :
                           v \in {w \in base : Survives(d, w)}}
+
+\* ---- two directives: d1 written first, then d2 (coordinates of the file that already carries d1) -------------
+\* Every scope is evaluated in the coordinates of the final file: d1 itself moves down when d2 inserts lines
+\* above it, file-level (pinned) findings stay at their line.
+Moved(d2, x) == x + Cardinality({i \in 1..Len(d2.before) : d2.before[i] <= x})
+ShiftD(d1, d2) == [d1 EXCEPT !.at = Moved(d2, @), !.endAt = IF @ = 0 THEN 0 ELSE Moved(d2, @)]
+Line2(d1, d2, v) == IF v.pinned \/ v.file # d2.file THEN NewLineF(d1, v) ELSE Moved(d2, NewLineF(d1, v))
+Survives2(d1, d2, v) ==
+    /\ ~(v.file = d1.file /\ Names(d1, v) /\ InScope(ShiftD(d1, d2), Line2(d1, d2, v)))
+    /\ ~(v.file = d2.file /\ Names(d2, v) /\ InScope(d2, Line2(d1, d2, v)))
+Expected2(base, d1, d2) ==
+    {[file |-> v.file, linter |-> v.linter, sub |-> v.sub, line |-> Line2(d1, d2, v), n |-> v.n, cross |-> v.cross, pinned |-> v.pinned] :
+         v \in {w \in base : Survives2(d1, d2, w)}}
+
+\* ---- stacking law (checked by TLC on small instances): a directive that names no reported rule only shifts lines --
+StackBase == {[file |-> 0, linter |-> l, sub |-> "x", line |-> ln, n |-> 1, cross |-> FALSE, pinned |-> FALSE] :
+                  l \in {"a", "b"}, ln \in {3, 5}}
+StackD2(f, at, endAt, before) ==
+    [form |-> f, spelling |-> "otherRule", file |-> 0, tlinter |-> "a", tsub |-> "x", olinter |-> "c", osub |-> "x",
+     at |-> at, endAt |-> endAt, before |-> before]
+OtherRuleOnlyShifts ==
+    \A B \in SUBSET StackBase :
+        \A d \in {StackD2("block", 2, 8, <<2, 6>>), StackD2("nextLine", 3, 0, <<3>>), StackD2("fileHeader", 1, 0, <<1>>)} :
+            /\ Cardinality(Expected(B, d)) = Cardinality(B)
+            /\ \A v \in B : \E w \in Expected(B, d) : w.linter = v.linter /\ w.line = NewLine(d, v)
+\* with a second directive that names no reported rule, Expected2 is Expected of the first directive, shifted
+StackD1 == [form |-> "sameLine", spelling |-> "fullId", file |-> 0, tlinter |-> "a", tsub |-> "x", olinter |-> "", osub |-> "",
+            at |-> 3, endAt |-> 0, before |-> <<>>]
+StackedIsShiftOfSingle ==
+    \A B \in SUBSET StackBase :
+        \A d \in {StackD2("block", 3, 6, <<3, 4>>), StackD2("nextLine", 3, 0, <<3>>), StackD2("fileHeader", 1, 0, <<1>>)} :
+            Expected2(B, StackD1, d) = {[w EXCEPT !.line = Moved(d, @)] : w \in Expected(B, StackD1)}
+StackInv == OtherRuleOnlyShifts /\ StackedIsShiftOfSingle
 
 \* ---- layer B: the block scanner of _check_block_ignore ----------------------------------------
 \* one violation at line v, one block s..e (s < e) naming its rule, file of n lines
